@@ -4,6 +4,7 @@ import (
 	"bytes"
 	"fmt"
 	"net"
+	"time"
 
 	"github.com/refraction-networking/conjure/pkg/transports"
 	pb "github.com/refraction-networking/conjure/proto"
@@ -139,6 +140,9 @@ func (Transport) WrapConnection(data *bytes.Buffer, c net.Conn, phantom net.IP, 
 
 		mc := transports.PrependToConn(c, data)
 		wrapped, err := factory.WrapConn(mc)
+		if err == nil && wrapped != nil {
+			wrapped = deadlineConn{Conn: wrapped, raw: c}
+		}
 
 		return r, wrapped, err
 	}
@@ -154,6 +158,21 @@ func (Transport) WrapConnection(data *bytes.Buffer, c net.Conn, phantom net.IP, 
 	// for the given phantom.
 	return nil, nil, transports.ErrNotTransport
 }
+
+// deadlineConn forwards SetDeadline and SetWriteDeadline to the underlying connection. The obfs4
+// library's connection answers both with ENOTSUP, but the station relies on SetDeadline (to clear
+// the classification deadline and for the proxy's stall timeouts), so without this an obfs4
+// session was torn down before relaying a single byte.
+type deadlineConn struct {
+	net.Conn
+	raw net.Conn
+}
+
+// SetDeadline implements net.Conn using the underlying connection.
+func (c deadlineConn) SetDeadline(t time.Time) error { return c.raw.SetDeadline(t) }
+
+// SetWriteDeadline implements net.Conn using the underlying connection.
+func (c deadlineConn) SetWriteDeadline(t time.Time) error { return c.raw.SetWriteDeadline(t) }
 
 // This function makes the assumption that any identifier with length 52 is an obfs4 registration.
 // This may not be strictly true, but any other identifier will simply fail to form a connection and
